@@ -28,11 +28,15 @@ META = {
             "Conformance: a directed driver builds an old object graph under the real "
             "ConcurrentImmix, allocates until MMTk starts a concurrent collection, holds the "
             "concurrent marking packets at their first instruction (sync_point gate with a time "
-            "limit) while the mutator performs the classic hiding patterns through the real "
+            "limit; all four mutators are bound so that queued root packets keep the Concurrent "
+            "bucket non-empty and large allocations do not end the cycle) while the mutator "
+            "allocates large objects and performs the classic hiding patterns through the real "
             "barrier (load a reference into a root and clear the field, move it into an object "
             "allocated during marking, cut a chain above a kept object, swap children, publish new "
             "objects only through old ones, array copies), then lets marking race with a second "
-            "batch, waits for FinalMark, churns the heap and forces a full collection. TLC "
+            "batch, waits for FinalMark and churns the heap - several complete cycles per program, "
+            "objects allocated during marking staying reachable across them - and finally forces "
+            "a full collection. TLC "
             "validates each write against SATB!Write (first write to a snapshot object finds the "
             "bit set; slow path pushes every old field value of the source and clears the bit), the "
             "flushes, and at FinalMark requires (vo_bit builds) that the InitialMark reachable set "
@@ -44,16 +48,35 @@ META = {
             "and after a heap churn. Schedules: the gate makes the 'marker has not scanned anything "
             "yet' interleaving certain and the OS + seeded jitter vary the rest; all interleavings "
             "are covered at design level only. NonMoving semantics under ConcurrentImmix is a "
-            "recorded C01 finding and is not used here; vo_bit runs use no large objects because "
-            "the walker calls enumerate_objects inside the InitialMark pause (unsupported by MMTk "
-            "when the LOS is non-empty).",
+            "recorded C01 finding and is not used here. In vo_bit builds the recorded "
+            "enumerate-invalid finding ends the validation of a program at its first FinalMark "
+            "(after the C12 guards of that pause), so those runs use one or two cycles per "
+            "program; default builds validate every pause of programs with 4-8 cycles.",
     "technique": "TLA+ spec (SATB.tla) model-checked with TLC incl. 6 mutants; traces of real "
                  "concurrent collections with a gated marker validated with TLC (Trace_SATB.tla "
                  "EXTENDS HeapTrace)",
 }
-PREFIXES = ("C12:", "C01:", "C02:", "C04:", "C07:")
+PREFIXES = ("C12:", "C01:", "C02:", "C04:", "C07:", "C36:")
 MY_EVENTS = {"SATBSlow", "SATBPush", "SATBFlush", "PauseEnd", "PauseStart", "ConcTrace", "RegionCopy",
-             "MarkingStarted", "GateOpen", "MutationsDone", "SatbEnd"}
+             "MarkingStarted", "LargeDuringMarking", "GateOpen", "MutationsDone", "SatbEnd"}
+# For other checks that want to run the concurrent-marking mode (e.g. C36): call prepare(), take
+# satb_runs(tier) and validate with hc.execute(ctx, runs, prefixes, spec=SATB_SPEC).
+SATB_SPEC = ("Trace_SATB.tla", "Trace_SATB.cfg", SD)
+
+
+def prepare():
+    """Make heapcommon keep the events Trace_SATB consumes when it projects a process trace."""
+    hc.HEAP_EVENTS |= MY_EVENTS
+
+
+def satb_runs(tier, seed_base=0):
+    """The gcdrive --mode satb runs of this tier (heapcommon.Run objects, plan ConcurrentImmix)."""
+    runs = matrix(tier)
+    for r in runs:
+        r.seed_off += seed_base
+    return runs
+
+
 QUICK_MUTANTS = ["records_new_value", "no_allocate_live", "log_before_record", "no_final_flush"]
 ALL_MUTANTS = QUICK_MUTANTS + ["tests_target", "test_inverted"]
 ACTIONS = ["Alloc", "Write", "Load", "DropRoot", "Flush", "InitialMark", "MarkStep", "FinalMark"]
@@ -61,37 +84,41 @@ ACTIONS_STEPS = ["Alloc", "WriteBegin", "BarrierTest", "BarrierRecord", "Barrier
                  "Load", "DropRoot", "Flush", "InitialMark", "MarkStep", "FinalMark"]
 
 
-def satb_run(name, feats=(), workers=3, programs=3, ops=40, heap=10, seed_off=0, opts="",
-             sems="0,0,0,2,1", release=False, mutators=2):
-    if "vo_bit" in feats:
-        sems = "0,0,0,1"        # see META.note
+def satb_run(name, feats=(), workers=3, programs=2, ops=40, heap=12, seed_off=0, opts="",
+             sems="0,0,0,2,1", release=False, mutators=2, rounds=4):
+    """One process: `programs` programs of `rounds` complete concurrent cycles each (objects -
+    large ones in particular - allocated while marking is in progress stay reachable over the
+    following cycles of the program), `ops` mutations per cycle."""
     return hc.Run("ConcurrentImmix", feats=feats, name=name, workers=workers, mutators=mutators,
                   heap=heap, programs=programs, ops=ops, sems=sems, opts=opts,
-                  extra=["--mode", "satb"], seed_off=seed_off, release=release)
+                  extra=["--mode", "satb", "--rounds", str(rounds)], seed_off=seed_off,
+                  release=release)
 
 
 def matrix(tier):
     if tier == "quick":
-        return [satb_run("satb", programs=3, ops=40),
-                satb_run("satb-w1", workers=1, programs=2, ops=40, seed_off=1, mutators=1),
-                satb_run("satb-vo", feats=["vo_bit"], programs=3, ops=50, seed_off=2)]
+        return [satb_run("satb", programs=2, ops=40, rounds=4),
+                satb_run("satb-w1", workers=1, programs=1, ops=40, seed_off=1, mutators=1, rounds=5),
+                satb_run("satb-vo", feats=["vo_bit"], programs=3, ops=50, seed_off=2, rounds=2)]
     runs = []
     for i, w in enumerate([1, 2, 3, 4, 6, 8]):
-        runs.append(satb_run("satb-w%d" % w, workers=w, programs=8, ops=60, seed_off=i,
-                             mutators=1 + i % 2))
+        runs.append(satb_run("satb-w%d" % w, workers=w, programs=4, ops=60, seed_off=i,
+                             mutators=1 + i % 2, rounds=4 + i % 3))
         runs.append(satb_run("satb-vo-w%d" % w, feats=["vo_bit"], workers=w, programs=8, ops=60,
-                             seed_off=10 + i, mutators=1 + (i + 1) % 2))
-    runs.append(satb_run("satb-h16", heap=16, programs=6, ops=80, seed_off=20))
-    runs.append(satb_run("satb-h6", heap=6, programs=8, ops=40, seed_off=21))
-    runs.append(satb_run("satb-vo-h16", feats=["vo_bit"], heap=16, programs=6, ops=80, seed_off=22))
-    runs.append(satb_run("satb-rel", programs=10, ops=60, seed_off=23, release=True))
-    runs.append(satb_run("satb-vo-rel", feats=["vo_bit"], programs=10, ops=60, seed_off=24, release=True))
-    runs.append(satb_run("satb-sb", feats=["immix_smaller_block"], programs=8, ops=50, seed_off=25))
+                             seed_off=10 + i, mutators=1 + (i + 1) % 2, rounds=1 + i % 2))
+    runs.append(satb_run("satb-h16", heap=16, programs=3, ops=80, seed_off=20, rounds=5))
+    runs.append(satb_run("satb-h8", heap=8, programs=4, ops=40, seed_off=21, rounds=4))
+    runs.append(satb_run("satb-vo-h16", feats=["vo_bit"], heap=16, programs=6, ops=80, seed_off=22, rounds=1))
+    runs.append(satb_run("satb-rel", programs=5, ops=60, seed_off=23, release=True, rounds=5))
+    runs.append(satb_run("satb-vo-rel", feats=["vo_bit"], programs=10, ops=60, seed_off=24, release=True,
+                         rounds=1))
+    runs.append(satb_run("satb-sb", feats=["immix_smaller_block"], programs=4, ops=50, seed_off=25))
     runs.append(satb_run("satb-vo-sb", feats=["immix_smaller_block", "vo_bit"], programs=8, ops=50,
-                         seed_off=26))
-    runs.append(satb_run("satb-ixnm", feats=["immix_non_moving"], programs=6, ops=50, seed_off=27))
-    runs.append(satb_run("satb-stress", programs=6, ops=50, seed_off=28, opts="stress_factor=1048576"))
-    runs.append(satb_run("satb-long", programs=4, ops=200, seed_off=29, heap=12))
+                         seed_off=26, rounds=1))
+    runs.append(satb_run("satb-ixnm", feats=["immix_non_moving"], programs=3, ops=50, seed_off=27))
+    runs.append(satb_run("satb-stress", programs=3, ops=50, seed_off=28, opts="stress_factor=1048576"))
+    runs.append(satb_run("satb-long", programs=2, ops=150, seed_off=29, heap=12, rounds=8))
+    runs.append(satb_run("satb-nolos", programs=3, ops=60, seed_off=30, sems="0,0,1"))
     return runs
 
 
@@ -146,7 +173,7 @@ def binding_demo(ctx, runs):
 
 
 def run(ctx):
-    hc.HEAP_EVENTS |= MY_EVENTS
+    prepare()
     quick = ctx.tier == "quick"
     ctx.tlc_mc("SATB.tla", "MC_SATB.cfg", spec_dir=SD, workers=4, timeout=1500,
                require_actions=ACTIONS)
